@@ -51,6 +51,9 @@ def run_scenarios(ctx: Ctx, scenarios: list) -> list:
 
 
 def run(ctx: Ctx) -> None:
+    # the synchronous API from application threads, two blocking instances, real time (props/syncapi.py, Trace_SyncApi.tla)
+    from props import syncapi
+    syncapi.run(ctx, 'C09')
     from props import regmodel as rm
     rng = random.Random(ctx.seed * 7919 + 9)
     scenarios = [rf.gen_c09(rng, 'c09-%d' % k, ctx.thorough) for k in range(ctx.pick(300, 12000))]
